@@ -187,6 +187,22 @@ func directHistory(r *rng.R, res *runner.Result, label string) {
 			b.Put(name, []byte("s"))
 			trace = append(trace, fmt.Sprintf("t+%v publish %s", now.Sub(base), name))
 		}
+		// a restarted instance (another generation id) publishes at the very timestamp of its newest snapshot: a
+		// different file, first seen now, whatever else it shares with the earlier one (seed C12j)
+		if r.Chance(1, 5) && len(lastTS) > 0 {
+			ins := make([]string, 0, len(lastTS))
+			for in := range lastTS {
+				ins = append(ins, in)
+			}
+			sort.Strings(ins)
+			in := ins[r.Intn(len(ins))]
+			name := snapshot.Name(db, in, rng.Pick(r, "GA", "GZ"), lastTS[in])
+			if _, exists := b.Get(name); !exists {
+				b.Put(name, []byte("s"))
+				res.Count("same_timestamp_other_generation_published", 1)
+				trace = append(trace, fmt.Sprintf("t+%v publish %s (same timestamp, other generation)", now.Sub(base), name))
+			}
+		}
 		// commit notifications
 		if r.Chance(1, 3) {
 			in := fmt.Sprintf("i%d", r.Intn(ninst))
@@ -292,6 +308,7 @@ func runAndCheck(w *cleaner.Worker, b *bucket.B, pol *policy, now time.Time, con
 		return map[string]any{"label": label, "now": now.Format(time.RFC3339Nano), "keep": conf.MustKeepInterval.String(), "stale": conf.RemoveOldInstancesInterval.String(), "listing": listed, "trace": tail(*trace, 25)}
 	}
 	deletedInst := map[string]int{}
+	deletedNow := map[string]bool{}
 	for _, e := range evs {
 		if e.Op != "Delete" {
 			continue
@@ -315,7 +332,20 @@ func runAndCheck(w *cleaner.Worker, b *bucket.B, pol *policy, now time.Time, con
 		if !seen || now.Sub(fs) < conf.MustKeepInterval {
 			res.Violate("delete-within-keep-interval", fmt.Sprintf("Delete of %s first seen %v ago (keep interval %v)", e.Name, now.Sub(fs), conf.MustKeepInterval), wit())
 		}
-		if newest[ni.InstanceID] == e.Name {
+		// N is the instance's newest if every other listed snapshot of the instance is older or was already deleted in
+		// this run (without equal timestamps this is newest[instance] == N; with them, deleting one of two files of
+		// the newest timestamp while the other stays is the removal of a superseded file)
+		isNewest := true
+		for _, n := range listed {
+			if n == e.Name || deletedNow[n] {
+				continue
+			}
+			if oi, err := snapshot.ParseName(n); err == nil && oi.Kind == snapshot.KindSnapshot && oi.SyncerName == db && oi.InstanceID == ni.InstanceID && !oi.Timestamp.Before(ni.Timestamp) {
+				isNewest = false
+			}
+		}
+		deletedNow[e.Name] = true
+		if isNewest {
 			age := now.Sub(ni.Timestamp)
 			ct, has := pol.committed[ni.InstanceID]
 			switch {
